@@ -1,7 +1,7 @@
 //! C18 - node k-mer iteration obeys the iterator contract.
 //! E2: complete next()/nth(n) state graph of the real iterator per node (stateright BFS);
 //! E1: perfect-hash index built from the graph iteration gives every k-mer a distinct slot.
-use crate::case::{GCase, Part};
+use vglue::case::{GCase, Part};
 use crate::pipe::*;
 use boomphf::Mphf;
 use debruijn::compression::*;
